@@ -3,15 +3,18 @@ import Proofs.Ledger.Caches
 # C13 — Consensus is independent of off-chain activity and node-local caches
 
 Model: `PocketModel/Ledger/Caches.lean` (the node-local caches as explicit state, the context
-flavour each entry point builds).  Lemmas: `Proofs/Ledger/Caches.lean`.
+flavour each entry point builds), following the code as it is now (/repo 7e2b97e, fbab444).
+Lemmas: `Proofs/Ledger/Caches.lean`.
 
-* ApplicationCache: `caches_coherent` (invariant) ⇒ `consensus_indep_offchain`; false as the code
-  is (`custom_query_poisons_appcache`, `eviction_poisons_appcache`), true for the repaired query
-  context, and `consensus_indep_offchain_asis_partial` with exactly the excluded point.
-* ValidatorCache: never read. GlobalCtxCache: coherent. VbCCache: coherent iff header height and
-  store version of the writing context agree (`custom_dispatch_poisons_vbc` for the as-is query
-  context). GlobalSessionCache: `dispatch_session_poisons_claim`; the repaired claim validation does
-  not read it.
+* ApplicationCache: `caches_coherent` (invariant) ⇒ `consensus_indep_offchain` for every
+  interleaving of custom queries at any height, RPC queries and CheckTx reads.
+* Whole node — application cache, validators-by-chain cache, session cache, restarts, custom/RPC
+  application queries, CheckTx reads **and dispatch traffic through both entry points**:
+  `node_inv`, `consensus_indep_offchain_all`.
+* ValidatorCache: never read. GlobalCtxCache: coherent (`prevCtx_indep_cache`). VbCCache:
+  `getVbc_coherent`, `queryCtx_fixed_aligned`. Claim validation never reads the session cache
+  (`claim_nocache_indep`).
+* Last section, *Historical*: counterexamples for the code before the fixes (`historical_…`).
 -/
 namespace C13
 open Caches
@@ -130,41 +133,8 @@ theorem consensus_indep_offchain (steps : List (Step K V)) (n : Node K V) (hc : 
   rw [(caches_coherent .fixed steps n hc (allBenign_fixed n steps)).2.1,
     (caches_coherent .fixed _ n hc (allBenign_fixed n _)).2.1, ← runPure_filter]
 
-/-- The same for the code as it is, under the hypothesis that is exactly the excluded point: every
-custom application query reads a version that agrees with the working store on the queried key. -/
-theorem consensus_indep_offchain_asis_partial (steps : List (Step K V)) (n : Node K V)
-    (hc : Coherent n.cache n.work) (hb : AllBenign .asis n steps) :
-    (run .asis n steps).2 = (run .asis n (steps.filter Step.onChain)).2 := by
-  rw [(caches_coherent .asis steps n hc hb).2.1,
-    (caches_coherent .asis _ n hc (allBenign_no_off .asis n steps)).2.1, ← runPure_filter]
-
 /-- A freshly started node (empty caches) satisfies the hypothesis. -/
 example (cap : Nat) (w : Store Nat Nat) : Coherent (LRU.empty cap : LRU Nat Nat) w := coherent_empty cap w
-
-/-- The witness state: application 1 staked with 10. -/
-def w0 : Store Nat Nat := fun k => if k = 1 then some 10 else none
-def n0 (cap : Nat) : Node Nat Nat := ⟨w0, [], LRU.empty cap⟩
-
-/-- **Counterexample for the code as it is** (`custom_query_poisons_appcache`): the application
-edits its stake to 12 (block 2), the node restarts, serves one custom `application` query at height
-1, and block execution then reads stake 10 instead of 12. -/
-theorem custom_query_poisons_appcache :
-    (run .asis (n0 100) [.commit, .cons (.set 1 12), .commit, .restart 100, .off (.customQuery 1 1), .cons (.get 1)]).2 = [some 10] ∧
-    (run .asis (n0 100) [.commit, .cons (.set 1 12), .commit, .restart 100, .cons (.get 1)]).2 = [some 12] ∧
-    (run .fixed (n0 100) [.commit, .cons (.set 1 12), .commit, .restart 100, .off (.customQuery 1 1), .cons (.get 1)]).2 = [some 12] := by
-  decide
-
-/-- The same without a restart: capacity 1 and a second application evict the entry first. -/
-theorem eviction_poisons_appcache :
-    (run .asis (n0 1) [.commit, .cons (.set 1 12), .cons (.set 2 7), .commit, .off (.customQuery 1 1), .cons (.get 1)]).2 = [some 10] ∧
-    (run .asis (n0 1) [.commit, .cons (.set 1 12), .cons (.set 2 7), .commit, .cons (.get 1)]).2 = [some 12] := by
-  decide
-
-/-- A deleted application can be resurrected in the cache by a historical query. -/
-theorem deleted_app_resurrected :
-    (run .asis (n0 100) [.commit, .cons (.del 1), .commit, .off (.customQuery 1 1), .cons (.get 1)]).2 = [some 10] ∧
-    (run .asis (n0 100) [.commit, .cons (.del 1), .commit, .cons (.get 1)]).2 = [none] := by
-  decide
 
 /-! ## ValidatorCache -/
 
@@ -239,25 +209,178 @@ theorem queryCtx_fixed_aligned {S : Type} (versions : List S) (latest req hdr : 
   | none => simp [hv] at h
   | some s' => simp [hv] at h; obtain ⟨rfl, rfl⟩ := h; exact hv
 
-/-- **Counterexample for the as-is query context** (`custom_dispatch_poisons_vbc`): a custom
+/-! ## GlobalSessionCache -/
+
+/-- Claim validation (as it is now: `useCache = false`) never depends on the session cache. -/
+theorem claim_nocache_indep {S H Sess : Type} [DecidableEq H] (f : SessionFn S H Sess) (c c' : LRU H Sess) (hdr : H)
+    (st en : S) : claimSession false f c hdr st en = claimSession false f c' hdr st en := rfl
+
+/-! ## The whole node -/
+
+section Whole
+variable {S C L H Sess : Type} [DecidableEq C] [DecidableEq H]
+
+theorem vbcCoherent_commit (vbc : S → C → L) (versions : List S) (c : LRU (Nat × C) L)
+    (h : VbcCoherent vbc versions c) (s : S) : VbcCoherent vbc (versions ++ [s]) c := by
+  intro ht ch l hm
+  obtain ⟨st, hs, hl⟩ := h ht ch l hm
+  have hlt : ht - 1 < versions.length := (List.getElem?_eq_some_iff.mp hs).1
+  exact ⟨st, by rw [List.getElem?_append_left hlt]; exact hs, hl⟩
+
+theorem vbcCoherent_empty (vbc : S → C → L) (versions : List S) (cap : Nat) :
+    VbcCoherent vbc versions (LRU.empty cap) := by
+  intro h ch l hm; simp [LRU.empty] at hm
+
+/-- The invariant of the whole node: the application cache is coherent with the working store and
+every validators-by-chain entry is the node list of the version its key names. (The session cache
+needs no invariant: block execution never reads it.) -/
+def NodeInv (W : World S C L H Sess) (n : FNode K V S C L H Sess) : Prop :=
+  Coherent n.app.cache n.app.work ∧ VbcCoherent W.vbc n.ms n.vbcCache
+
+/-- **`node_inv`**: every step — block execution, commit, restart, and every kind of off-chain
+request — keeps the invariant, and what block execution observes is what the cache-less reference
+observes. -/
+theorem node_inv (W : World S C L H Sess) (n : FNode K V S C L H Sess) (s : FStep K V S H) (hi : NodeInv W n) :
+    NodeInv W (fstep W n s).1 ∧ (fstep W n s).2 = (fstepPure W n.app.work n.ms s).2 ∧
+    (fstep W n s).1.app.work = (fstepPure W n.app.work n.ms s).1.1 ∧
+    (fstep W n s).1.ms = (fstepPure W n.app.work n.ms s).1.2 := by
+  obtain ⟨hc, hv⟩ := hi
+  cases s with
+  | app st =>
+    obtain ⟨h1, h2, h3⟩ := step_coherent .fixed n.app st hc (Or.inl rfl)
+    exact ⟨⟨h1, hv⟩, by simp only [fstep, fstepPure, h2], h3, rfl⟩
+  | commit m =>
+    exact ⟨⟨hc, vbcCoherent_commit W.vbc n.ms n.vbcCache hv m⟩, rfl, rfl, rfl⟩
+  | claim hdr =>
+    simp only [fstep, fstepPure]
+    cases hst : n.ms[W.startOf hdr - 1]? with
+    | none => exact ⟨⟨hc, hv⟩, rfl, rfl, rfl⟩
+    | some st =>
+      cases hen : n.ms[W.endOf hdr - 1]? with
+      | none => exact ⟨⟨hc, hv⟩, rfl, rfl, rfl⟩
+      | some en =>
+        obtain ⟨g1, g2⟩ := getVbc_coherent W.vbc n.ms n.vbcCache hv (W.startOf hdr) st hst (W.chainOf hdr)
+        exact ⟨⟨hc, g2⟩, by simp only [g1], rfl, rfl⟩
+  | dispatch hdr at_ =>
+    simp only [fstep, fstepPure]
+    cases hst : n.ms[W.startOf hdr - 1]? with
+    | none => exact ⟨⟨hc, hv⟩, rfl, rfl, rfl⟩
+    | some st =>
+      cases hcur : n.ms[at_ - 1]? with
+      | none => exact ⟨⟨hc, hv⟩, rfl, rfl, rfl⟩
+      | some cur =>
+        cases hg : (n.sessCache.get hdr).2 with
+        | some x => exact ⟨⟨hc, hv⟩, rfl, rfl, rfl⟩
+        | none =>
+          obtain ⟨_, g2⟩ := getVbc_coherent W.vbc n.ms n.vbcCache hv (W.startOf hdr) st hst (W.chainOf hdr)
+          exact ⟨⟨hc, g2⟩, rfl, rfl, rfl⟩
+  | restart cap =>
+    exact ⟨⟨coherent_empty cap _, vbcCoherent_empty W.vbc n.ms _⟩, rfl, rfl, rfl⟩
+
+theorem frun_eq_pure (W : World S C L H Sess) (steps : List (FStep K V S H)) (n : FNode K V S C L H Sess)
+    (hi : NodeInv W n) :
+    (frun W n steps).2 = (frunPure W n.app.work n.ms steps).2 ∧ NodeInv W (frun W n steps).1 := by
+  induction steps generalizing n with
+  | nil => exact ⟨rfl, hi⟩
+  | cons s ss ih =>
+    obtain ⟨h1, h2, h3, h4⟩ := node_inv W n s hi
+    obtain ⟨i1, i2⟩ := ih (fstep W n s).1 h1
+    simp only [frun, frunPure]
+    rw [h3, h4] at i1
+    exact ⟨by rw [h2, i1], i2⟩
+
+theorem frunPure_filter (W : World S C L H Sess) (w : Store K V) (ms : List S) (steps : List (FStep K V S H)) :
+    (frunPure W w ms steps).2 = (frunPure W w ms (steps.filter FStep.onChain)).2 := by
+  induction steps generalizing w ms with
+  | nil => rfl
+  | cons s ss ih =>
+    by_cases hs : FStep.onChain s = true
+    · rw [List.filter_cons_of_pos hs]; simp only [frunPure]; rw [ih]
+    · rw [List.filter_cons_of_neg hs]
+      simp only [frunPure]
+      cases s with
+      | app st =>
+        cases st with
+        | off o => simpa [fstepPure, stepPure] using ih w ms
+        | cons op => simp [FStep.onChain, Step.onChain] at hs
+        | commit => simp [FStep.onChain, Step.onChain] at hs
+        | restart c => simp [FStep.onChain, Step.onChain] at hs
+      | dispatch hdr a => simpa [fstepPure] using ih w ms
+      | commit m => simp [FStep.onChain] at hs
+      | claim hdr => simp [FStep.onChain] at hs
+      | restart c => simp [FStep.onChain] at hs
+
+/-- **`consensus_indep_offchain_all`**: for every history of the whole node — block execution
+(application reads/writes, claim validations), commits, restarts with any capacities — and **every**
+interleaving of off-chain traffic (custom application queries at any height, RPC queries, CheckTx
+reads, dispatch requests through the RPC and through `Query custom/pocketcore/dispatch` at any
+height), block execution observes exactly what it observes in the history without that traffic. -/
+theorem consensus_indep_offchain_all (W : World S C L H Sess) (steps : List (FStep K V S H))
+    (n : FNode K V S C L H Sess) (hi : NodeInv W n) :
+    (frun W n steps).2 = (frun W n (steps.filter FStep.onChain)).2 := by
+  rw [(frun_eq_pure W steps n hi).1, (frun_eq_pure W _ n hi).1, ← frunPure_filter]
+
+/-- A freshly started node satisfies the invariant whatever its stores hold. -/
+example (W : World S C L H Sess) (w : Store Nat Nat) (ms : List S) :
+    NodeInv W (⟨⟨w, [], LRU.empty 3⟩, ms, LRU.empty 5, LRU.empty 5⟩ : FNode Nat Nat S C L H Sess) :=
+  ⟨coherent_empty 3 w, vbcCoherent_empty W.vbc ms 5⟩
+
+end Whole
+
+/-! ## Historical: the code before 7e2b97e / fbab444
+
+Counterexamples (and the partial theorem) that held of the code as it was: a custom-query context
+that was not marked prev and carried the latest header over the store of the requested height
+(`QueryCtx.asis`), and a claim validation that preferred the node-local session cache
+(`claimSession true`).  The twin harness reproduces each of them when the corresponding fix is
+reverted. -/
+
+/-- HISTORICAL (query context before 7e2b97e): the same held only under the hypothesis that every
+custom application query read a version agreeing with the working store on the queried key. -/
+theorem historical_consensus_indep_offchain_asis_partial (steps : List (Step K V)) (n : Node K V)
+    (hc : Coherent n.cache n.work) (hb : AllBenign .asis n steps) :
+    (run .asis n steps).2 = (run .asis n (steps.filter Step.onChain)).2 := by
+  rw [(caches_coherent .asis steps n hc hb).2.1,
+    (caches_coherent .asis _ n hc (allBenign_no_off .asis n steps)).2.1, ← runPure_filter]
+
+/-- The witness state: application 1 staked with 10. -/
+def w0 : Store Nat Nat := fun k => if k = 1 then some 10 else none
+def n0 (cap : Nat) : Node Nat Nat := ⟨w0, [], LRU.empty cap⟩
+
+/-- HISTORICAL counterexample (query context before 7e2b97e): the application
+edits its stake to 12 (block 2), the node restarts, serves one custom `application` query at height
+1, and block execution then reads stake 10 instead of 12. -/
+theorem historical_custom_query_poisons_appcache :
+    (run .asis (n0 100) [.commit, .cons (.set 1 12), .commit, .restart 100, .off (.customQuery 1 1), .cons (.get 1)]).2 = [some 10] ∧
+    (run .asis (n0 100) [.commit, .cons (.set 1 12), .commit, .restart 100, .cons (.get 1)]).2 = [some 12] ∧
+    (run .fixed (n0 100) [.commit, .cons (.set 1 12), .commit, .restart 100, .off (.customQuery 1 1), .cons (.get 1)]).2 = [some 12] := by
+  decide
+
+/-- HISTORICAL. The same without a restart: capacity 1 and a second application evict the entry first. -/
+theorem historical_eviction_poisons_appcache :
+    (run .asis (n0 1) [.commit, .cons (.set 1 12), .cons (.set 2 7), .commit, .off (.customQuery 1 1), .cons (.get 1)]).2 = [some 10] ∧
+    (run .asis (n0 1) [.commit, .cons (.set 1 12), .cons (.set 2 7), .commit, .cons (.get 1)]).2 = [some 12] := by
+  decide
+
+/-- HISTORICAL. A deleted application could be resurrected in the cache by a historical query. -/
+theorem historical_deleted_app_resurrected :
+    (run .asis (n0 100) [.commit, .cons (.del 1), .commit, .off (.customQuery 1 1), .cons (.get 1)]).2 = [some 10] ∧
+    (run .asis (n0 100) [.commit, .cons (.del 1), .commit, .cons (.get 1)]).2 = [none] := by
+  decide
+
+/-- HISTORICAL counterexample for the query context before 7e2b97e: a custom
 dispatch query for height 1 served while the latest height is 2 files version 1's node list under
 height 2; block execution later reads it for height 2. -/
-theorem custom_dispatch_poisons_vbc :
+theorem historical_custom_dispatch_poisons_vbc :
     ∃ (versions : List Nat) (hdr s : Nat),
       queryCtxOf .asis versions 2 1 = some (hdr, s) ∧
       (getVbc (fun (st : Nat) (_ : Unit) => st) 2 versions[1]!
         (getVbc (fun (st : Nat) (_ : Unit) => st) hdr s (LRU.empty 10) ()).1 ()).2 ≠ versions[1]! :=
   ⟨[100, 200], 2, 100, by decide, by decide⟩
 
-/-! ## GlobalSessionCache -/
-
-/-- The repaired claim validation never depends on the session cache. -/
-theorem claim_nocache_indep {S H Sess : Type} [DecidableEq H] (f : SessionFn S H Sess) (c c' : LRU H Sess) (hdr : H)
-    (st en : S) : claimSession false f c hdr st en = claimSession false f c' hdr st en := rfl
-
-/-- As it is, the cached session is harmless exactly when filtering against the state at dispatch
+/-- HISTORICAL (claim validation before fbab444 read the cache): the cached session was harmless exactly when filtering against the state at dispatch
 time and against the session-end state give the same session. -/
-theorem claim_cache_partial {S H Sess : Type} [DecidableEq H] (f : SessionFn S H Sess) (cap : Nat) (hdr : H)
+theorem historical_claim_cache_partial {S H Sess : Type} [DecidableEq H] (f : SessionFn S H Sess) (cap : Nat) (hdr : H)
     (st latest en : S) (hcap : 0 < cap) (hsame : f.sess hdr st latest = f.sess hdr st en) :
     claimSession true f (dispatch f (LRU.empty cap) hdr st latest).1 hdr st en = f.sess hdr st en := by
   have hp : (dispatch f (LRU.empty cap) hdr st latest).1.peek hdr = some (f.sess hdr st latest) := by
@@ -268,10 +391,10 @@ theorem claim_cache_partial {S H Sess : Type} [DecidableEq H] (f : SessionFn S H
   unfold claimSession
   simp [hp, hsame]
 
-/-- **Counterexample** (`dispatch_session_poisons_claim`): the session function keeps a node iff it
+/-- HISTORICAL counterexample (claim validation before fbab444): the session function keeps a node iff it
 still exists in the second state; a dispatch served while node 7 still exists makes the claim
 validation use a session containing node 7 although it is gone at session end. -/
-theorem dispatch_session_poisons_claim :
+theorem historical_dispatch_session_poisons_claim :
     let f : SessionFn (List Nat) Unit (List Nat) := ⟨fun _ start e => start.filter (fun x => e.contains x)⟩
     claimSession true f (dispatch f (LRU.empty 10) () [7, 8] [7, 8]).1 () [7, 8] [8] = [7, 8] ∧
     claimSession true f (LRU.empty 10) () [7, 8] [8] = [8] ∧
